@@ -227,7 +227,7 @@ Q_CONC = ("concurrent histories (2-8 producers on own clones or one shared handl
           "for sequential runs, (capacity, #producers, producer-id trigram in delivery order) for concurrent runs, (window, capacity, counter triple) for forced windows")
 
 
-def q_jobs(bindir, prop, tier, seed, seq_enum=True, caps="unbounded,1,2,3", drop_matrix=False, outcomes=None, focus="mixed", windows=True, seq_random=True, conc=True, miri=False, blocked=False, droprace=False):
+def q_jobs(bindir, prop, tier, seed, seq_enum=True, caps="unbounded,1,2,3", drop_matrix=False, outcomes=None, focus="mixed", windows=True, seq_random=True, conc=True, miri=False, blocked=False, droprace=False, storm=False):
     quick = tier == QUICK
     jobs = []
     base = ["--property", prop]
@@ -244,6 +244,8 @@ def q_jobs(bindir, prop, tier, seed, seq_enum=True, caps="unbounded,1,2,3", drop
         jobs += shards(bindir, "queue_conc", prop + "-conc", seed, NCPU, base + ["--mode", "conc", "--focus", focus, "--cases", "40" if quick else "1200"], 3400)
     if windows:
         jobs += shards(bindir, "queue_conc", prop + "-windows", seed, 2 if quick else 8, base + ["--mode", "windows", "--cases", "12" if quick else "200"], 3400)
+    if storm:
+        jobs += shards(bindir, "queue_driver", prop + "-panicstorm", seed, 1, base + ["--mode", "panic-storm"], 3400)
     if droprace:
         jobs += shards(bindir, "queue_conc", prop + "-droprace", seed, NCPU, base + ["--mode", "droprace", "--cases", "400" if quick else "30000"], 3400)
     if blocked:
@@ -303,7 +305,7 @@ meta("C16", level="fault_enumeration",
 
 @plan("C08")
 def _c08(bindir, tier, seed):
-    return q_jobs(bindir, "C08", tier, seed, miri=True)
+    return q_jobs(bindir, "C08", tier, seed, miri=True, storm=True)
 
 
 @plan("C09")
@@ -313,7 +315,7 @@ def _c09(bindir, tier, seed):
 
 @plan("C10")
 def _c10(bindir, tier, seed):
-    return q_jobs(bindir, "C10", tier, seed, blocked=True)
+    return q_jobs(bindir, "C10", tier, seed, blocked=True, storm=True)
 
 
 @plan("C11")
